@@ -18,26 +18,48 @@ class Captured:
     def __init__(self) -> None:  # noqa: D107
         self.kind: str | None = None
         self.kwargs: dict[str, Any] = {}
+        self.shapes: list[tuple[int, ...]] = []  # (len(x0), *x.shape) of every objective call
+        self.result: Any = None
+
+
+def _passthrough(orig: Any, captured: Captured, kwargs: dict[str, Any], name: str) -> Any:  # noqa: ANN401
+    inner = kwargs[name]
+
+    def wrapped(x: Any, *a: Any) -> Any:  # noqa: ANN401
+        captured.shapes.append((len(kwargs["x0"]), *tuple(getattr(x, "shape", ()))))
+        return inner(x, *a)
+
+    kw = dict(kwargs)
+    kw[name] = wrapped
+    captured.result = orig(**kw)
+    return captured.result
 
 
 @contextmanager
-def capture(driver: Callable[[Captured], None] | None = None) -> Iterator[Captured]:
+def capture(driver: Callable[[Captured], None] | None = None, *, passthrough: bool = False) -> Iterator[Captured]:
+    """With passthrough the real SciPy function runs, with the objective wrapped to record argument shapes."""
     captured = Captured()
     orig_min, orig_de = scipy_plugin.minimize, scipy_plugin.differential_evolution
 
-    def fake_minimize(*args: Any, **kwargs: Any) -> None:  # noqa: ANN401
+    def fake_minimize(*args: Any, **kwargs: Any) -> Any:  # noqa: ANN401
         assert not args
         captured.kind = "minimize"
         captured.kwargs = kwargs
         if driver is not None:
             driver(captured)
+        if passthrough:
+            return _passthrough(orig_min, captured, kwargs, "fun")
+        return None
 
-    def fake_de(*args: Any, **kwargs: Any) -> None:  # noqa: ANN401
+    def fake_de(*args: Any, **kwargs: Any) -> Any:  # noqa: ANN401
         assert not args
         captured.kind = "differential_evolution"
         captured.kwargs = kwargs
         if driver is not None:
             driver(captured)
+        if passthrough:
+            return _passthrough(orig_de, captured, kwargs, "func")
+        return None
 
     scipy_plugin.minimize = fake_minimize  # type: ignore[assignment]
     scipy_plugin.differential_evolution = fake_de  # type: ignore[assignment]
